@@ -39,6 +39,7 @@ type loopInfo struct {
 	headGuard string
 	variant0  string
 	autoInv   []autoInv
+	backs     []string
 }
 
 type autoInv struct {
@@ -82,6 +83,21 @@ func (f *Frame) oblige(kind, key, goal string, pos token.Pos, text string) *Obli
 		// still count trivially true obligations? no: they carry no information.
 		return nil
 	}
+	// In a function whose contract declares panics an accepted way of
+	// rejecting input (may_panic), a run-time panic ends the path: the
+	// condition is assumed afterwards instead of being an obligation.
+	if top := c.W.Specs.Contracts[funcKey(c.Fn)]; top != nil && top.MayPanic {
+		switch kind {
+		case "bounds", "nil", "div", "typeassert", "alloc":
+			c.assume(f.curGuard, goal)
+			return nil
+		case "requires":
+			if strings.HasSuffix(key, "][panic") {
+				c.assume(f.curGuard, goal)
+				return nil
+			}
+		}
+	}
 	name := fmt.Sprintf("%s#%s[%s]", shortFuncKey(c.Fn), kind, key)
 	if f.fn != c.Fn {
 		name = fmt.Sprintf("%s#%s[%s@%s]", shortFuncKey(c.Fn), kind, key, shortFuncKey(f.fn))
@@ -124,7 +140,7 @@ func (f *Frame) val(v ssa.Value) Val {
 	case *ssa.Global:
 		return f.globalPtr(x)
 	case *ssa.Function:
-		return Val{T: fmt.Sprint(1000000 + c.funcID(x)), Typ: x.Type(), Fn: x}
+		return Val{T: fmt.Sprintf("(* %d %s)", 900000+c.funcID(x), refStride), Typ: x.Type(), Fn: x}
 	case *ssa.Builtin:
 		return Val{Typ: x.Type()}
 	}
@@ -161,7 +177,7 @@ func (f *Frame) globalPtr(g *ssa.Global) Val {
 		} else {
 			c.W.globalIDs[name] = id
 		}
-		c.Decls = append(c.Decls, fmt.Sprintf("(assert (= %s %d))", q(name), id+1))
+		c.Decls = append(c.Decls, fmt.Sprintf("(assert (= %s (* %d %s)))", q(name), id+1, refStride))
 		c.globalFacts(g, q(name))
 	}
 	_ = t
@@ -764,6 +780,12 @@ func (f *Frame) backEdge(li *loopInfo, from *ssa.BasicBlock, guard string, st *S
 	for v, nv := range newVals {
 		f.vals[v] = nv
 	}
+	if f.c.suppress == 0 && f.top {
+		n := len(li.backs)
+		li.backs = append(li.backs, guard)
+		o := &Obligation{Name: fmt.Sprintf("%s#consistent[loop %d back edge %d]", shortFuncKey(f.c.Fn), li.ordinal, n), Kind: "cover", Func: funcKey(f.c.Fn), Guard: li.headGuard, Goal: "false", Prefix: len(f.c.Log), Ctx: f.c, Consistency: true, Text: "assumptions inside the loop (invariants, callee contracts, axioms) are not contradictory"}
+		f.c.Obls = append(f.c.Obls, o)
+	}
 	f.checkInvariants(li, st, "preserved", token.NoPos)
 	if li.spec != nil && li.spec.Decreases != nil && li.variant0 != "" {
 		env := f.specEnv(st, f.entry)
@@ -823,18 +845,25 @@ func (f *Frame) inferLoopInvariants(li *loopInfo) {
 		if !ok {
 			break
 		}
-		if _, isInt := intInfoOf(phi.Type()); !isInt || len(phi.Edges) != 2 {
+		if _, isInt := intInfoOf(phi.Type()); !isInt {
 			continue
 		}
 		var initV, stepV ssa.Value
+		okShape := true
 		for i, p := range b.Preds {
 			if isBackEdge(p, b) {
+				if stepV != nil && stepV != phi.Edges[i] {
+					okShape = false
+				}
 				stepV = phi.Edges[i]
 			} else {
+				if initV != nil && initV != phi.Edges[i] {
+					okShape = false
+				}
 				initV = phi.Edges[i]
 			}
 		}
-		if initV == nil || stepV == nil {
+		if initV == nil || stepV == nil || !okShape {
 			continue
 		}
 		bo, ok := stepV.(*ssa.BinOp)
@@ -1029,6 +1058,10 @@ func (f *Frame) lookupLocal(name string, at *ssa.BasicBlock, st *State) (Val, bo
 			continue
 		}
 		et := v.Type().Underlying().(*types.Pointer).Elem()
+		if isStruct(et) {
+			// a struct variable is denoted by its address: fields and ghost state hang off it
+			return Val{T: pv.T, Typ: v.Type()}, true
+		}
 		return Val{T: c.loadObj(st, pv.T, et), Typ: et}, true
 	}
 	return Val{}, false
